@@ -1,13 +1,13 @@
 // c01.cpp — the sequential exact entry points (mcb_sva_signed, mcb_sva_fvs_trees, mcb_sva_iso_trees) and the
 // bidirectional signed search on the real code.
-//   A <alg> <D|I> <scale> <graph>          alg = signed | fvs | iso ; D = double weights w*2^scale, I = int weights
+//   A <alg> <D|I|L> <scale> <graph>        alg = signed | fvs | iso ; D = double weights w*2^scale, I = int weights, L = long long weights (64-bit)
 //        for fvs / iso the line ends with the oracles of the as-executed trees model (TreesFloatModel.v, exact tie of
 //        tools/trees_common.py):  FVS = the sources of the builder's trees (the feedback vertex set actually used, in emission
 //        order, or all vertices) and ORD = the arrangement std::sort leaves the builder's candidates in, as positions of the
 //        builder's emission order.  Recovered by running the same builder and the same std::sort call as _mcb_sva_trees on the
 //        same graph object, once before and once after the entry point; the two recoveries must agree (same number of
 //        candidates, same sources, same arrangement), otherwise the case fails.
-//   B <D|I> <use_hidden> <s> <spos> <t> <tpos> <limit|-> <k signed ids> <k hidden ids> <graph>
+//   B <D|I|L> <use_hidden> <s> <spos> <t> <tpos> <limit|-> <k signed ids> <k hidden ids> <graph>
 #include "mcb_common.hpp"
 #include <parmcb/parmcb_sva_signed.hpp>
 #include <parmcb/parmcb_sva_trees.hpp>
@@ -94,10 +94,10 @@ int main() {
         std::string kind = t.next();
         if (kind == "A") {
             std::string alg = t.next(), ty = t.next(); int scale = (int) t.next_ll();
-            if (ty == "D") run_alg<DGraph>(alg, t, scale, out); else run_alg<IGraph>(alg, t, 0, out);
+            if (ty == "D") run_alg<DGraph>(alg, t, scale, out); else if (ty == "L") run_alg<LGraph>(alg, t, 0, out); else run_alg<IGraph>(alg, t, 0, out);
         } else if (kind == "B") {
             std::string ty = t.next();
-            if (ty == "D") run_bidir<DGraph>(t, out); else run_bidir<IGraph>(t, out);
+            if (ty == "D") run_bidir<DGraph>(t, out); else if (ty == "L") run_bidir<LGraph>(t, out); else run_bidir<IGraph>(t, out);
         } else throw std::runtime_error("bad kind");
     });
 }
